@@ -2,7 +2,10 @@
 
 package flyt
 
-import "context"
+import (
+	"context"
+	"fmt"
+)
 
 // C17 — function-style nodes pass values between phases unchanged.
 
@@ -165,6 +168,20 @@ func VH_C17_batch() {
 	goErr := !errRes && vNondet[bool]("item1FailsWithGoError")
 	stop := vNondet[bool]("stopMode")
 	e1 := vNewErr()
+	form := 0
+	if errRes {
+		form = vChoice("item1ErrorForm", 3)
+	}
+	switch form {
+	// the error an item reports may itself wrap a context error (its own inner timeout) while the
+	// batch's context is alive: it is still that item's error state, handed to post as it is
+	case 1:
+		vCover("batch-error-wraps-a-context-error")
+		e1 = fmt.Errorf("fetch item: %w", context.DeadlineExceeded)
+	case 2:
+		vCover("batch-error-wraps-a-context-error")
+		e1 = fmt.Errorf("fetch item: %w", context.Canceled)
+	}
 	c := vChoice("concurrency", 2) // sequential path and pooled path have their own slot-writing code
 	if c > 0 {
 		vCover("batch-concurrent")
